@@ -45,6 +45,22 @@ CLAIMED = {
          "Decides 'rejected implies no effect' structurally for every block: verifyHeader before any ledger effect in AddBlock/SubmitBlock/AddHeader; state-root comparison before submitBlock for non-empty blocks; block-root comparison before the first store effect; verifyHeader mutates only after signature verification; executeBlock reaches no persistent write. Transaction-root check is C20.",
          "Empty blocks skip the state-root comparison by design; genesis skips the block-root comparison.",
          "DESIGN.md §4 C39"),
+ "C08": ("frame analysis (A5: field write sets vs snapshot/revert coverage, freshness of saved copies) + call-graph confinement (A4)",
+         "Decides structurally for any nesting: every StateDB field an EVM-facing mutator writes is captured by Snapshot and restored by RevertToSnapshot; the saved memdb is on every path a fresh DeepClone (all MemDB fields copied, slices with fresh backing arrays); self-destruct set copied; logs saved as length over an append-only list; no mutator writes through to the overlay. Assumes the memdb's own map semantics.",
+         "MemDB behaves as an ordered map; shared PRNG and scratch buffer exempted by table.",
+         "DESIGN.md §4 C08"),
+ "C13": ("repository-specific lint over SSA (A12: no unchecked int64 + - * << / on the machine-integer fast path) + guard analysis (A2)",
+         "Decides that integer opcode results cannot depend on the machine-vs-big representation through silent int64 overflow: fast paths are overflow-checked primitives or non-overflowing operations; zero divisor and shift bounds guard the big-integer path; only IntValFromBigInt produces big values; executor call sites consume errors. One known finding (Div MinInt64/-1). Does not decide math/big exactness.",
+         "go/ssa typing of operations; table of non-overflowing operators.",
+         "DESIGN.md §4 C13"),
+ "C14": ("recursion analysis (A8: SCCs of the static call graph, each cycle cut by a growing bound or by the cycle detector) + loop-completeness lint (A8-L)",
+         "Decides 'a cycle at any position is rejected rather than recursed into' and 'decoding recursion is bounded' structurally: every recursive component of the NeoVM value package is justified by a growing depth/count bound or by a successful detector call, and the detector must visit every element. Seven known findings (the detector's three first-iteration returns and the four traversals that therefore overflow the stack on a=[1,a]). Does not decide round-trip equality.",
+         "Static calls only (no function values in these cycles); bounds recognised as comparisons of a parameter/pointee/len with a constant.",
+         "DESIGN.md §4 C14"),
+ "C15": ("map-iteration-order analysis (A1) over all functions of the NeoVM executor, value and syscall packages",
+         "Decides independence from Go map iteration order structurally: every range over a map is commutative, collect-then-sort (sorted before any other use) or an exists-failure exit; wall-clock/random inputs forbidden. One known finding (the detector's map branch returns the verdict of the first entry yielded). Does not decide equality of results.",
+         "Effect classes of callees (pure/keyed/ordered) come from a summariser with a small table of ordered sinks.",
+         "DESIGN.md §4 C15"),
 }
 
 NOT_APPLICABLE = {
